@@ -313,9 +313,12 @@ fn pid_pair(p: PackageId) -> (usize, usize) {
     let nums: Vec<usize> = s.split(|c: char| !c.is_ascii_digit()).filter(|x| !x.is_empty()).map(|x| x.parse().unwrap()).collect();
     (nums[0], nums[1])
 }
+thread_local! { static LAST_PANIC_AT: std::cell::RefCell<String> = const { std::cell::RefCell::new(String::new()) }; }
+/// message of a caught panic, prefixed by the source location the panic hook recorded (`@file:line `)
 fn panic_msg(e: Box<dyn std::any::Any + Send>) -> String {
     let msg = e.downcast_ref::<String>().cloned().or_else(|| e.downcast_ref::<&str>().map(|s| s.to_string())).unwrap_or_default();
-    msg.replace([';', '|', '\n', '\t'], " ")
+    let at = LAST_PANIC_AT.with(|c| c.borrow().clone());
+    format!("@{at} {}", msg.chars().take(400).collect::<String>()).replace([';', '|', '\n', '\t'], " ")
 }
 fn argerr(e: &wac_graph::InstantiationArgumentError) -> &'static str {
     use wac_graph::InstantiationArgumentError::*;
@@ -765,7 +768,12 @@ fn main() {
     let args: Vec<String> = std::env::args().collect();
     let tier = args[1].as_str();
     let seed: u64 = args[2].parse().unwrap();
-    if std::env::var("C02_TRACE").is_err() { std::panic::set_hook(Box::new(|_| {})); }
+    let trace = std::env::var("C02_TRACE").is_ok();
+    std::panic::set_hook(Box::new(move |info| {
+        let at = info.location().map(|l| format!("{}:{}", l.file(), l.line())).unwrap_or_default();
+        if trace { eprintln!("panic at {at}"); }
+        LAST_PANIC_AT.with(|c| *c.borrow_mut() = at);
+    }));
     let u = build_universe();
     let mut co = std::io::BufWriter::new(std::fs::File::create(&args[3]).unwrap());
     let mut io = std::io::BufWriter::new(std::fs::File::create(&args[4]).unwrap());
